@@ -34,6 +34,44 @@ CHECKS = {
              'pair, every monotonic- and range-dominance inequality, bounds and the unit norm hold after the constraint, '
              'and that feasible weights are unchanged.',
         note='Real arithmetic; Sqrt modelled by its defining contract; L2-norm queries are stretch (inconclusive allowed).'),
+    'C02': dict(
+        engine=E1, design_ref='DESIGN.md 3/C02',
+        technique='bounded symbolic execution of the traced TF graph of Lattice.call per lattice cell (and per coordinate order for simplex; unforced casts/sorts split the case) + z3 polynomial identities (QF_NRA); witnesses replayed',
+        text='For every enumerated lattice shape/unit/input form the solver decides over ALL real kernels and input points that '
+             'the layer output equals the reference multilinear / sorted-simplex interpolation in every cell (closed boundaries, '
+             'ties, outermost edge as their own cases), that weights are a convex combination, that simplex and hypercube agree on '
+             'edges, and directly on the code that monotone / Edgeworth kernels give monotone / trust-respecting functions.',
+        note='Real arithmetic; TF top_k tie rule and float->int truncation as implemented in vf/interp.py (validated); z3.'),
+    'C05': dict(
+        engine=E1, design_ref='DESIGN.md 3/C05',
+        technique='bounded symbolic execution of the traced TF graphs of PWLCalibration.call/keypoints_* and CategoricalCalibration.call + z3 (bilinear identities; softmax by contract); witnesses replayed',
+        text='For every enumerated calibrator configuration the solver decides over ALL real kernels, logits and inputs that the '
+             'output is the piecewise-linear interpolation through (keypoints_inputs, keypoints_outputs), constant outside, cyclic '
+             'closing, missing-value replacement, ordered learned keypoints; categorical: every index (enumerated) maps to its row.',
+        note='Real arithmetic; softmax contract (positive, sums to 1).'),
+    'C07': dict(
+        engine=E1, design_ref='DESIGN.md 3/C07',
+        technique='bounded symbolic execution of the constraint objects attached by the real KroneckerFactoredLattice.build composed with KroneckerFactoredLattice.call in both update orders + z3 QF_NRA; witnesses replayed',
+        text='For every enumerated KFL configuration (incl. no monotonicity, all bound modes) the solver decides over ALL raw '
+             'kernels, scales and input pairs that after the constraints (either order, or finalize_constraints) the output is '
+             'monotone in declared dimensions and within bounds. Two-term / two-sided-bound cases are stretch (NRA).',
+        note='Real arithmetic; dims-th root by contract r^k=x; inconclusive stretch queries are reported, not counted.'),
+    'C08': dict(
+        engine=E1, design_ref='DESIGN.md 3/C08',
+        technique='bounded symbolic execution of project_by_dykstra (loop unrolled), of its loop-body function from an arbitrary symbolic state, of every _project_partial_* and of the PWL projection + z3 QF_LRA; oracles: textbook half-space projection, telescoping invariant, KKT point',
+        text='Feasible kernels are fixed points (N=1..3 and inductively via the loop state), every group projection equals the exact '
+             'Euclidean projection onto its disjoint half-spaces, the loop body satisfies the Dykstra recurrence, and on small '
+             'lattices (or 4-coordinate slices of 8-weight lattices) the violation / distance to the true KKT projection after N '
+             'iterations stays below calibrated thresholds for every kernel in the unit box.',
+        note='Limit statement rests on the Boyle-Dykstra theorem (cited); thresholds in vf/props/c08_thresholds.json are 2x the '
+             'solver-computed suprema of the unchanged tree.'),
+    'C20': dict(
+        engine=E1, design_ref='DESIGN.md 3/C20',
+        technique='bounded symbolic execution of the traced TF graph of Linear.call + z3 (bilinear identity and consequences)',
+        text='For every enumerated Linear configuration the solver decides over ALL kernels, biases and inputs that the output is '
+             'b_u + sum_i k[i,u] clip(x_i), and that constraint-satisfying weights give monotone, dominance-respecting, '
+             'weighted-average behaviour.',
+        note='Real arithmetic.'),
 }
 
 NOT_YET = 'check not built yet in this round (work in progress, see DESIGN.md)'
